@@ -241,6 +241,88 @@ def _more_builders():
     f = dict(code=code, id=e.id, length=e.length); hl = 4
     if code in (1, 2): e.type = self.i('eaptype', 8); f['type'] = e.type; hl = 5
     return L(e, f, hl)
+  def tlv_tuple(t):
+    n = type(t).__name__
+    if n in ('chassis_id', 'port_id'): return (n, t.subtype, t.id)
+    if n == 'ttl': return (n, t.ttl)
+    if n == 'end_tlv': return (n,)
+    if n == 'system_capabilities': return (n, list(t.caps), list(t.enabled_caps))
+    if n == 'management_address': return (n, t.address_subtype, t.address, t.interface_numbering_subtype, t.interface_number, t.object_identifier)
+    if n == 'organizationally_specific': return (n, t.oui, t.subtype, t.payload)
+    return (n, t.tlv_type, t.payload)
+  B.tlv_tuple = staticmethod(tlv_tuple)
+  def lldp(self, extra=()):
+    m = self.ctx.pox('pox.lib.packet.lldp'); ctx = self.ctx
+    p = self.P.lldp(); k = self.extra; self.extra_used = True
+    tl = [m.chassis_id(subtype=self.i('csub', 8), id=ctx.bytes(self.n('cid'), 1 + k)), m.port_id(subtype=self.i('psub', 8), id=ctx.bytes(self.n('pid'), 1 + k)),
+          m.ttl(ttl=self.i('lttl', 16))]
+    for e in extra:
+      if e == 'name': tl.append(m.system_name(payload=ctx.bytes(self.n('sysname'), 3)))
+      elif e == 'desc': tl.append(m.system_description(payload=ctx.bytes(self.n('sysdesc'), k)))
+      elif e == 'pdesc': tl.append(m.port_description(payload=ctx.bytes(self.n('pdesc'), 2)))
+      elif e == 'caps':
+        # pack()/parse() branch on every capability bit: two bits of each word are symbolic, the others alternate
+        c = m.system_capabilities(); cb = {0: ctx.bool(self.n('cap0')), 15: ctx.bool(self.n('cap15'))}; eb = {3: ctx.bool(self.n('en3')), 8: ctx.bool(self.n('en8'))}
+        c.caps = [cb.get(j, j % 3 == 1) for j in range(16)]
+        c.enabled_caps = [eb.get(j, j % 2 == 1) for j in range(16)]
+        tl.append(c)
+      elif e == 'mgmt':
+        tl.append(m.management_address(address_subtype=self.i('asub', 8), address=ctx.bytes(self.n('maddr'), 4), interface_numbering_subtype=self.i('insub', 8),
+                                       interface_number=self.i('ifnum', 32), object_identifier=ctx.bytes(self.n('oid'), k)))
+      elif e == 'org': tl.append(m.organizationally_specific(oui=ctx.bytes(self.n('oui'), 3), subtype=self.i('osub', 8), payload=ctx.bytes(self.n('opay'), k)))
+      elif e == 'unknown':
+        u = m.unknown_tlv(); u.tlv_type = 100; u.payload = ctx.bytes(self.n('upay'), 2); tl.append(u)
+    tl.append(m.end_tlv())
+    p.tlvs = tl
+    hl = sum(2 + len(t._pack_data()) for t in tl)
+    return L(p, dict(tlvs=[tlv_tuple(t) for t in tl]), hl)
+  def ndopt_tuple(o):
+    n = type(o).__name__
+    if n in ('NDOptSourceLinkLayerAddress', 'NDOptTargetLinkLayerAddress'): return (n, o.address)
+    if n == 'NDOptMTU': return (n, o.mtu)
+    if n == 'NDOptPrefixInformation': return (n, o.prefix_length, o.on_link, o.is_autonomous, o.valid_lifetime, o.preferred_lifetime, o.prefix)
+    return (n, o.TYPE, o.raw)
+  B.ndopt_tuple = staticmethod(ndopt_tuple)
+  def ndopts(self, kinds):
+    m = self.ctx.pox('pox.lib.packet.icmpv6'); ctx = self.ctx; out = []; ln = 0
+    for k in kinds:
+      if k == 'slla': out.append(m.NDOptSourceLinkLayerAddress(address=self.mac('slla'))); ln += 8
+      elif k == 'tlla': out.append(m.NDOptTargetLinkLayerAddress(address=self.mac('tlla'))); ln += 8
+      elif k == 'mtu': out.append(m.NDOptMTU(mtu=self.i('ndmtu', 32))); ln += 8
+      elif k == 'prefix':
+        out.append(m.NDOptPrefixInformation(prefix_length=self.i('plen', 8), on_link=bool(ctx.bool(self.n('onlink'))), is_autonomous=bool(ctx.bool(self.n('auton'))),
+                                            valid_lifetime=self.i('valid', 32), preferred_lifetime=self.i('pref', 32),
+                                            prefix=self.A.IPAddr6(ctx.bytes(self.n('prefix'), 16), raw=True))); ln += 32
+      elif k == 'generic':
+        g = m.NDOptionGeneric(); g.TYPE = 77; g.raw = ctx.bytes(self.n('gen'), 6); out.append(g); ln += 8
+    return out, ln
+  def nd(self, kind, opts=()):
+    m = self.ctx.pox('pox.lib.packet.icmpv6'); ctx = self.ctx
+    ol, oln = ndopts(self, opts)
+    if kind == 'rs':
+      o = m.NDRouterSolicitation(); o.options = ol; f = {}; hl = 4
+    elif kind == 'ra':
+      o = m.NDRouterAdvertisement(); o.hop_limit = self.i('rahl', 8); o.is_managed = bool(ctx.bool(self.n('managed'))); o.is_other = bool(ctx.bool(self.n('other')))
+      o.lifetime = self.i('ralife', 16); o.reachable = self.i('reach', 32); o.retrans_timer = self.i('retrans', 32); o.options = ol
+      f = dict(hop_limit=o.hop_limit, is_managed=o.is_managed, is_other=o.is_other, lifetime=o.lifetime, reachable=o.reachable, retrans_timer=o.retrans_timer); hl = 12
+    elif kind == 'ns':
+      o = m.NDNeighborSolicitation(); o.target = self.A.IPAddr6(ctx.bytes(self.n('target'), 16), raw=True); o.options = ol; f = dict(target=o.target); hl = 20
+    elif kind == 'na':
+      o = m.NDNeighborAdvertisement(); o.target = self.A.IPAddr6(ctx.bytes(self.n('target'), 16), raw=True); o.options = ol
+      o.is_router = bool(ctx.bool(self.n('router'))); o.is_solicited = bool(ctx.bool(self.n('solicited'))); o.is_override = bool(ctx.bool(self.n('override')))
+      f = dict(target=o.target, is_router=o.is_router, is_solicited=o.is_solicited, is_override=o.is_override); hl = 20
+    f['options'] = [ndopt_tuple(x) for x in ol]
+    l = L(o, f, hl + oln); l.nd = True
+    return l
+  def icmp6err(self, kind):
+    m = self.ctx.pox('pox.lib.packet.icmpv6')
+    if kind == 'texc': o = m.TimeExceeded(); f = {}
+    elif kind == 'toobig': o = m.PacketTooBig(); o.mtu = self.i('mtu6', 32); f = dict(mtu=o.mtu)
+    else: o = m.unreach(); o.unused = self.i('unused6', 32); f = dict(unused=o.unused)
+    return L(o, f, 4)
+  B.icmp6err = icmp6err
+  B.nd = nd
+  B.lldp = lldp
   B.igmp = igmp; B.igmp3 = igmp3; B.vxlan = vxlan; B.gre = gre; B.rip = rip; B.eapol = eapol; B.eap = eap
 _more_builders()
 
@@ -292,7 +374,10 @@ def roundtrip(ctx, b, layers, pay, tag='', repack=True):
     if not ok: return raw
     for f, v in l.fields.items():
       got = getattr(cur, f)
-      if f == 'options': got = [(o.type, o.val) for o in got]
+      if f == 'options' and getattr(l, 'nd', False): got = [B.ndopt_tuple(o) for o in got]
+      elif f == 'options': got = [(o.type, o.val) for o in got]
+      if f.startswith('is_') and not isinstance(got, bool): got = (got != 0)
+      if f == 'tlvs': got = [B.tlv_tuple(t) for t in got]
       if f == 'group_records': got = [(r.type, r.address, list(r.source_addresses), r.aux) for r in got]
       if f == 'entries': got = [(e.address_family, e.route_tag, e.ip, e.netmask, e.next_hop, e.metric) for e in got]
       if f == 'extension_headers': got = [(type(h).__name__, h.next_header_type, h.raw_body) for h in got]
@@ -409,6 +494,22 @@ STACKS = {
   'eap_response': lambda b: [b.eth(0x888e), b.eapol(0), b.eap(2)],
   'eapol_start': lambda b: [b.eth(0x888e), b.eapol(1)],
   'eapol_key':  lambda b: [b.eth(0x888e), b.eapol(3)],
+  'lldp':       lambda b: [b.eth(0x88cc), b.lldp()],
+  'lldp_names': lambda b: [b.eth(0x88cc), b.lldp(('name', 'desc', 'pdesc'))],
+  'lldp_caps':  lambda b: [b.eth(0x88cc), b.lldp(('caps',))],
+  'lldp_mgmt':  lambda b: [b.eth(0x88cc), b.lldp(('mgmt',))],
+  'lldp_org_unknown': lambda b: [b.eth(0x88cc), b.lldp(('org', 'unknown'))],
+  'nd_rs':      lambda b: [b.eth(0x86dd), b.ipv6(58), b.icmpv6(133, 0), b.nd('rs')],
+  'nd_rs_slla': lambda b: [b.eth(0x86dd), b.ipv6(58), b.icmpv6(133, 0), b.nd('rs', ('slla',))],
+  'nd_ra':      lambda b: [b.eth(0x86dd), b.ipv6(58), b.icmpv6(134, 0), b.nd('ra')],
+  'nd_ra_opts': lambda b: [b.eth(0x86dd), b.ipv6(58), b.icmpv6(134, 0), b.nd('ra', ('slla', 'mtu', 'prefix'))],
+  'nd_ns':      lambda b: [b.eth(0x86dd), b.ipv6(58), b.icmpv6(135, 0), b.nd('ns')],
+  'nd_ns_slla': lambda b: [b.eth(0x86dd), b.ipv6(58), b.icmpv6(135, 0), b.nd('ns', ('slla',))],
+  'nd_na_tlla': lambda b: [b.eth(0x86dd), b.ipv6(58), b.icmpv6(136, 0), b.nd('na', ('tlla',))],
+  'nd_na_generic': lambda b: [b.eth(0x86dd), b.ipv6(58), b.icmpv6(136, 0), b.nd('na', ('generic',))],
+  'texc6':      lambda b: [b.eth(0x86dd), b.ipv6(58), b.icmpv6(3), b.icmp6err('texc')],
+  'toobig6':    lambda b: [b.eth(0x86dd), b.ipv6(58), b.icmpv6(2, 0), b.icmp6err('toobig')],
+  'unreach6':   lambda b: [b.eth(0x86dd), b.ipv6(58), b.icmpv6(1), b.icmp6err('unreach')],
   'arp':        lambda b: [b.eth(0x806), b.arp()],
   'vlan_arp':   lambda b: [b.eth(0x8100), b.vlan(0x806), b.arp()],
   'rarp':       lambda b: [b.eth(0x8035), b.arp()],
@@ -424,7 +525,7 @@ STACKS = {
 }
 
 
-NO_PAYLOAD = ('rip1', 'rip2', 'eap_success', 'eapol_start')
+NO_PAYLOAD = ('rip1', 'rip2', 'eap_success', 'eapol_start', 'nd_rs', 'nd_rs_slla', 'nd_ra', 'nd_ra_opts', 'nd_ns', 'nd_ns_slla', 'nd_na_tlla', 'nd_na_generic')
 
 
 def h_stack(ctx, stack, n, repack=True):
@@ -453,6 +554,7 @@ def obligations(tier):
     for n in ((0, 1, 4) if tier == 'quick' else (0, 1, 2, 5, 8)):
       # re-serialising a parsed GRE packet that carries a checksum makes POX re-verify it (assert checksum(...) == 0): the one's
       # complement identity behind that is decided by z3 only for <= 1 payload byte (obligation O3); larger ones skip the re-pack step
+      if st in NO_PAYLOAD and n: continue
       if st.startswith('gre_csum'): sc.append(dict(stack=st, n=n, repack=False))
       else: sc.append(dict(stack=st, n=n))
   BOUNDS[tier]['stacks'] = sorted(STACKS); BOUNDS[tier]['payload_lengths'] = sorted({c['n'] for c in sc})
